@@ -138,7 +138,7 @@ def obligations(tier):
         # three warps in every arrangement (nested, overlapping, touching)
         obs.append(dict(name="hittable(0, 0, 0, 3)/G8", func="ob_hittable", args=((0, 0, 0, 3), 8), budget_s=b, bounds="three warps, ticks 0..8"))
         obs.append(dict(name="hittable(0, 1, 0, 3)/G5", func="ob_hittable", args=((0, 1, 0, 3), 5), budget_s=b, bounds="three warps and a stop, ticks 0..5"))
-        obs.append(dict(name="time_notes(0, 0, 0, 3)/1note/TAP_TO_FAKE", func="ob_time_notes", args=((0, 0, 0, 3), 6, 1, "TAP_TO_FAKE"), budget_s=b, bounds="three warps, 1 note"))
+        obs.append(dict(name="time_notes(0, 0, 0, 3)/1note/TAP_TO_FAKE", func="ob_time_notes", args=((0, 0, 0, 3), 4, 1, "TAP_TO_FAKE"), budget_s=2 * b, bounds="three warps, ticks 0..4, 1 note"))
     else:
         G, b = 48, 1500
         for s in tc.shapes(4):
